@@ -573,6 +573,25 @@ def Node.receiveCommit (n : Node) (sv : SigView) : Err × Node :=
       else (.invalidSig, n)
   | e => (e, n)
 
+/-- `ReceiveNewCommitment` exactly as the Go code behaves on a bad signature:
+    `fetchCommitmentView` has already set the commit heights of the covered updates when the
+    signature is checked, so after an Invalid*SigError the logs stay mutated while the chain is
+    not extended (the link fails the channel at that point; the code carries a TODO for it).
+    `receiveCommit` above is the same function with the rollback the TODO asks for; the two
+    coincide whenever the answer is not `invalidSig` (`receiveCommitGo_eq` in Props). -/
+def Node.receiveCommitGo (n : Node) (sv : SigView) : Err × Node :=
+  let ackIdx := n.chainR.tail.ourMsg
+  let ackHtlc := n.chainR.tail.ourHtlc
+  match sanity n n.logR.logIndex ackIdx .loc .none [] [] with
+  | .ok =>
+    match fetchCommitmentView n .loc ackIdx ackHtlc n.logR.logIndex n.logR.htlcCounter with
+    | .error e => (e, n)
+    | .ok (cm, n') =>
+      if cm.sigView = sv then
+        (.ok, { n' with chainL := { n'.chainL with pend := n'.chainL.pend ++ [cm] } })
+      else (.invalidSig, n')
+  | e => (e, n)
+
 /-- `RevokeCurrentCommitment`. -/
 def Node.revoke (n : Node) : Err × Node :=
   match n.chainL.pend with
@@ -624,6 +643,19 @@ def Node.step (n : Node) : Op → Err × Node
 
 def Node.run (n : Node) (ops : List Op) : Node := ops.foldl (fun s o => (s.step o).2) n
 
+/-- the step function with Go's behaviour on a bad signature. -/
+def Node.stepGo (n : Node) : Op → Err × Node
+  | .receiveCommit sv => n.receiveCommitGo sv
+  | o => n.step o
+
+def Node.runGo (n : Node) (ops : List Op) : Node := ops.foldl (fun s o => (s.stepGo o).2) n
+
+/-- no `ReceiveNewCommitment` of the run answered Invalid*SigError (after such an answer the
+    link fails the channel; the state machine is not meant to be used any further). -/
+def Node.noInvalidSig : Node → List Op → Prop
+  | _, [] => True
+  | n, o :: os => (n.stepGo o).1 ≠ .invalidSig ∧ Node.noInvalidSig (n.stepGo o).2 os
+
 /-! ## the two-party system -/
 
 inductive Msg where
@@ -648,7 +680,7 @@ def Node.deliver (n : Node) : Msg → Err × Node
   | .settle i => n.resolveRemote .settle i true
   | .fail i => n.resolveRemote .fail i true
   | .fee f => n.receiveUpdateFee f
-  | .commitSig sv => n.receiveCommit sv
+  | .commitSig sv => n.receiveCommitGo sv
   | .revoke => n.receiveRevocation
 
 /-- protocol-following local actions (each sends its wire message on success). -/
